@@ -541,6 +541,18 @@ func rwLock(fr *frame, s structure, write bool) {
 var stubSets = map[string]map[string]externalFn{
 	// a file system in which nothing exists: every open fails
 	"os-nofile": {
+		"os.ReadDir": func(fr *frame, args []value) value {
+			return tuple{[]value(nil), fr.i.mkError("open: no such file or directory")}
+		},
+		"os.Open": func(fr *frame, args []value) value {
+			return tuple{(*value)(nil), fr.i.mkError("open: no such file or directory")}
+		},
+		"os/user.Current": func(fr *frame, args []value) value {
+			return tuple{(*value)(nil), fr.i.mkError("user: unknown")}
+		},
+		"os/user.Lookup": func(fr *frame, args []value) value {
+			return tuple{(*value)(nil), fr.i.mkError("user: unknown")}
+		},
 		"os.Stat": func(fr *frame, args []value) value {
 			return tuple{iface{}, fr.i.mkError("stat: no such file or directory")}
 		},
